@@ -70,6 +70,7 @@ type World struct {
 	httpHeaders [][2]*Term
 	ginSent    map[string]*Term
 	schedFull  int
+	schedCap, schedAdmitted int
 	goSkipped  int
 	lenOf      map[int]*Term
 	ginWildcards map[string]bool
